@@ -18,31 +18,36 @@ def validate_for_sql(model: Reference):
             raise TableNotFoundError(f'Table on {col} is not set')
 
 
+def escape_braces(text: str) -> str:
+    '''Protect user text from the str.format call that inserts the constraint name.'''
+    return text.replace('{', '{{').replace('}', '}}')
+
+
 def generate_inline_sql(model: Reference, source_col: List[Column], ref_col: List[Column]) -> str:
-    result = comment_to_sql(model.comment) if model.comment else ''
-    result += (
-        f'{{c}}FOREIGN KEY ({col_names(source_col)}) '  # type: ignore
+    prefix = comment_to_sql(model.comment) if model.comment else ''
+    result = (
+        f'FOREIGN KEY ({col_names(source_col)}) '  # type: ignore
         f'REFERENCES {get_full_name_for_sql(ref_col[0].table)} ({col_names(ref_col)})'  # type: ignore
     )
     if model.on_update:
         result += f' ON UPDATE {model.on_update.upper()}'
     if model.on_delete:
         result += f' ON DELETE {model.on_delete.upper()}'
-    return result
+    return escape_braces(prefix) + '{c}' + escape_braces(result)
 
 
 def generate_not_inline_sql(model: Reference, source_col: List['Column'], ref_col: List['Column']):
-    result = comment_to_sql(model.comment) if model.comment else ''
-    result += (
-        f'ALTER TABLE {get_full_name_for_sql(source_col[0].table)}'  # type: ignore
-        f' ADD {{c}}FOREIGN KEY ({col_names(source_col)})'
+    prefix = comment_to_sql(model.comment) if model.comment else ''
+    prefix += f'ALTER TABLE {get_full_name_for_sql(source_col[0].table)} ADD '  # type: ignore
+    result = (
+        f'FOREIGN KEY ({col_names(source_col)})'
         f' REFERENCES {get_full_name_for_sql(ref_col[0].table)} ({col_names(ref_col)})' # type: ignore
     )
     if model.on_update:
         result += f' ON UPDATE {model.on_update.upper()}'
     if model.on_delete:
         result += f' ON DELETE {model.on_delete.upper()}'
-    return result + ';'
+    return escape_braces(prefix) + '{c}' + escape_braces(result) + ';'
 
 
 def generate_many_to_many_sql(model: Reference) -> str:
@@ -53,8 +58,7 @@ def generate_many_to_many_sql(model: Reference) -> str:
     ref1_sql = generate_not_inline_sql(model, join_table.columns[:n], model.col1)  # type: ignore
     ref2_sql = generate_not_inline_sql(model, join_table.columns[n:], model.col2)  # type: ignore
 
-    result = '\n\n'.join((table_sql, ref1_sql, ref2_sql))
-    return result.format(c='')
+    return '\n\n'.join((table_sql, ref1_sql.format(c=''), ref2_sql.format(c='')))
 
 
 @DefaultSQLRenderer.renderer_for(Reference)
